@@ -202,13 +202,13 @@ func main() {
 	w := gen.NewWriter(f.Out)
 	defer w.Close()
 	bin := gen.BuildIndexserver("c31")
-	var procs []*gen.LineProc
+	var procs []*gen.IxsLineProc
 	for _, p := range []string{"", "1", "2", "4"} {
 		env := []string{"ZOEKT_VERIF_DRIVER=c31"}
 		if p != "" {
 			env = append(env, "GOMAXPROCS="+p)
 		}
-		procs = append(procs, gen.StartLineProc(bin, env...))
+		procs = append(procs, gen.StartIxsLineProc(bin, env...))
 	}
 	defer func() {
 		for _, p := range procs {
